@@ -14,7 +14,7 @@ def run(ctx):
         # vacuity guard (small, bounded), then the design checks with arity 2 and 3
         if not os.environ.get("VERIF_SKIP_MC"):  # developer switch used by the mutant self-tests
             r0 = ctx.model_check("trie", "MC_Hexary", "MC_Hexary_cov.cfg", coverage=True, timeout=900)
-            ctx.check_coverage(r0, ["Add", "SetLen", "Finalize", "Reopen", "Check", "SyncAll"])
+            ctx.check_coverage(r0, ["Add", "SetLen", "Finalize", "Reopen", "Check", "SyncAll", "HeaderRead"])
             ctx.model_check("trie", "MC_Hexary", "MC_Hexary.cfg", constants={"MaxLen": ctx.pick(12, 18)}, timeout=ctx.pick(900, 3000))
             ctx.model_check("trie", "MC_Hexary", "MC_Hexary_a3.cfg", constants={"MaxLen": ctx.pick(10, 14)}, timeout=ctx.pick(900, 3000))
             ctx.model_check("trie", "MC_Hexary", "MC_Hexary_v2.cfg", constants={"MaxOps": ctx.pick(6, 8)}, timeout=ctx.pick(900, 3000))
@@ -26,6 +26,9 @@ def run(ctx):
         # directed: every history of 5 calls over {add 1/15/16/240 hashes, Finalize}: headers taken at lengths 1, 16, 17, 256,
         # 272 ... are retained by the driver and compared again after every later call
         allb += ctx.behaviours("trie", "Gen_Hexary", "Gen_Hexary_dir.cfg", timeout=ctx.pick(900, 3000), javaopts="-Xss512m")
+        # directed 2: every history of 5 calls over {add 1-2 hashes of either version, rewind by 1-2, GetMerkleHeader}: header read
+        # at n, rewind, a different suffix back to n, header read again
+        allb += ctx.behaviours("trie", "Gen_Hexary", "Gen_Hexary_dir2.cfg", timeout=ctx.pick(900, 3000), javaopts="-Xss512m")
         if not ctx.quick():  # long accumulators: crossing 4096 = 16^3 (each TLC step evaluates thousands of adds)
             allb += ctx.behaviours("trie", "Gen_Hexary", "Gen_Hexary.cfg", simulate="num=25", depth=9, seed=ctx.seed + 5,
                                    constants={"MaxOps": 8, "Depth": 8, "MaxLen": 9000, "AddSizes": "{1, 17, 255, 3839, 4096}"},
